@@ -1,21 +1,133 @@
-//! TLS provider wrapper that rewrites the `active_connection_id_limit` transport parameter an endpoint
-//! DECLARES (C13 scenarios). s2n-quic overwrites the value configured through
-//! `Limits::with_max_active_connection_ids` with the constant `ACTIVE_CONNECTION_ID_LIMIT = 3`
-//! (endpoint/initial.rs, endpoint/mod.rs), so two s2n-quic endpoints can only be shown other peer limits by
-//! changing the encoded parameter block that is handed to the TLS library. With `limit == 0` the block is
-//! passed through byte-for-byte (the default: nothing changes for other scenario families).
+//! TLS provider wrapper that rewrites the transport-parameter block an endpoint DECLARES, right where s2n-quic
+//! hands the encoded block to the TLS library (`new_server_session` / `new_client_session`): the rewritten bytes
+//! are what the TLS stack puts into ClientHello / EncryptedExtensions, so both sides see the same bytes, the TLS
+//! transcript stays consistent and the handshake still authenticates.
+//!
+//! Two independent rewrites:
+//! * `limit` (C13 scenarios): the `active_connection_id_limit` parameter. s2n-quic overwrites the value configured
+//!   through `Limits::with_max_active_connection_ids` with the constant `ACTIVE_CONNECTION_ID_LIMIT = 3`
+//!   (endpoint/initial.rs, endpoint/mod.rs), so two s2n-quic endpoints can only be shown other peer limits by
+//!   changing the encoded block. `limit == 0`: untouched.
+//! * `muts` (C14 scenarios, scenario parameter `tp_mut=<ep>:<mutation>[,<ep>:<mutation>…]`, ep = c|s = the
+//!   endpoint whose DECLARED block is rewritten): connection-ID authentication parameters (RFC 9000 §7.3) and the
+//!   server-only parameters. `<mutation>` is `none` (the block goes through the rewriting path byte for byte) or
+//!   `<param>.<op>[.<arg>]` with
+//!     param: odcid (0x00) | srt (0x02) | pa (0x0d) | acl (0x0e) | iscid (0x0f) | rscid (0x10)
+//!     op:    drop | same | flip0 | flipmid | fliplast | trunc | ext | empty | dup | set.<hex> | rand<N> |
+//!            copy.<param> | wf
+//!   `same` removes the parameter and puts the same value back (control); `flip*` XOR one value byte with 0x01;
+//!   `trunc` / `ext` shorten / lengthen the value by one byte; `set` / `rand<N>` / `copy` / `wf` replace the value
+//!   in place, or ADD the parameter at the end of the block when it is absent (`wf` = a well-formed
+//!   preferred_address / 16-byte token / 8-byte id); `dup` appends a second copy. An op that needs a present
+//!   parameter is a no-op on a block without it. Every session creation with mutations is traced:
+//!     app <t> <ep> tpmut <spec> <applied 0|1> <old block hex> <new block hex>
+//! With `limit == 0` and no mutation for the endpoint the block is passed through untouched (the default: nothing
+//! changes for other scenario families).
 use s2n_codec::{Encoder, EncoderValue};
 use s2n_quic::provider::tls;
 use s2n_quic_core::{application::ServerName, crypto::tls::ConnectionInfo, crypto::tls::Endpoint};
 
+#[derive(Clone, Debug, PartialEq)]
+pub enum Op {
+    Drop,
+    Same,
+    Flip(u8),
+    Trunc,
+    Ext,
+    Empty,
+    Dup,
+    Set(Vec<u8>),
+    Rand(usize),
+    Copy(u64),
+    Wf,
+}
+
+#[derive(Clone, Debug, PartialEq)]
+pub struct Mutation {
+    pub spec: String,
+    /// None = `none` (rewrite nothing)
+    pub what: Option<(u64, Op)>,
+}
+
+fn param_id(s: &str) -> Option<u64> {
+    Some(match s {
+        "odcid" => 0x00,
+        "srt" => 0x02,
+        "pa" => 0x0d,
+        "acl" => 0x0e,
+        "iscid" => 0x0f,
+        "rscid" => 0x10,
+        _ => return None,
+    })
+}
+
+fn unhex(s: &str) -> Option<Vec<u8>> {
+    if s == "-" {
+        return Some(vec![]);
+    }
+    if s.len() % 2 != 0 {
+        return None;
+    }
+    (0..s.len() / 2).map(|i| u8::from_str_radix(s.get(2 * i..2 * i + 2)?, 16).ok()).collect()
+}
+
+/// parses the `tp_mut` scenario parameter; returns the mutations of endpoint `ep`
+pub fn parse(spec: &str, ep: &str) -> Result<Vec<Mutation>, String> {
+    let mut out = vec![];
+    for part in spec.split(',').filter(|p| !p.is_empty()) {
+        let (e, m) = part.split_once(':').ok_or_else(|| format!("bad tp_mut {part}"))?;
+        if e != "c" && e != "s" {
+            return Err(format!("bad tp_mut endpoint {part}"));
+        }
+        let bad = || format!("bad tp_mut mutation {part}");
+        let what = if m == "none" {
+            None
+        } else {
+            let f: Vec<&str> = m.split('.').collect();
+            if f.len() < 2 {
+                return Err(bad());
+            }
+            let id = param_id(f[0]).ok_or_else(bad)?;
+            let op = match (f[1], f.get(2)) {
+                ("drop", None) => Op::Drop,
+                ("same", None) => Op::Same,
+                ("flip0", None) => Op::Flip(0),
+                ("flipmid", None) => Op::Flip(1),
+                ("fliplast", None) => Op::Flip(2),
+                ("trunc", None) => Op::Trunc,
+                ("ext", None) => Op::Ext,
+                ("empty", None) => Op::Empty,
+                ("dup", None) => Op::Dup,
+                ("wf", None) => Op::Wf,
+                ("set", Some(h)) => Op::Set(unhex(h).ok_or_else(bad)?),
+                ("copy", Some(q)) => Op::Copy(param_id(q).ok_or_else(bad)?),
+                (r, None) if r.starts_with("rand") => Op::Rand(r[4..].parse::<usize>().map_err(|_| bad())?),
+                _ => return Err(bad()),
+            };
+            Some((id, op))
+        };
+        if e == ep {
+            out.push(Mutation { spec: m.to_string(), what });
+        }
+    }
+    Ok(out)
+}
+
 pub struct TpTls<P> {
     pub inner: P,
     pub limit: u64,
+    pub ep: &'static str,
+    pub muts: Vec<Mutation>,
+    pub seed: u64,
 }
 
 pub struct TpEndpoint<E> {
     inner: E,
     limit: u64,
+    ep: &'static str,
+    muts: Vec<Mutation>,
+    seed: u64,
+    sessions: u64,
 }
 
 struct Raw(Vec<u8>);
@@ -78,22 +190,196 @@ pub fn rewrite(block: &[u8], limit: u64) -> Vec<u8> {
     out
 }
 
+/// block -> [(id, value)] (None when the block is not a well-formed parameter sequence)
+fn items(block: &[u8]) -> Option<Vec<(u64, Vec<u8>)>> {
+    let mut out = vec![];
+    let mut i = 0;
+    while i < block.len() {
+        let (id, j) = varint(block, i)?;
+        let (len, k) = varint(block, j)?;
+        let end = k.checked_add(len as usize)?;
+        if end > block.len() {
+            return None;
+        }
+        out.push((id, block[k..end].to_vec()));
+        i = end;
+    }
+    Some(out)
+}
+
+fn unitems(its: &[(u64, Vec<u8>)]) -> Vec<u8> {
+    let mut out = vec![];
+    for (id, v) in its {
+        put_varint(*id, &mut out);
+        put_varint(v.len() as u64, &mut out);
+        out.extend_from_slice(v);
+    }
+    out
+}
+
+fn rand_bytes(seed: u64, salt: u64, n: usize) -> Vec<u8> {
+    let mut r = crate::cfg::Rng(crate::cfg::mix(seed ^ 0x7a_d0_0d ^ salt.wrapping_mul(0x9e37_79b9)));
+    (0..n).map(|_| r.next() as u8).collect()
+}
+
+fn well_formed(id: u64, seed: u64) -> Vec<u8> {
+    match id {
+        0x0d => {
+            // IPv4 address+port, IPv6 address+port, connection id (length-prefixed, 8 bytes), stateless reset token
+            let mut v = vec![192, 0, 2, 7, 0x11, 0x51];
+            v.extend_from_slice(&[0x20, 0x01, 0x0d, 0xb8, 0, 0, 0, 0, 0, 0, 0, 0, 0, 0, 0, 7, 0x11, 0x51]);
+            v.push(8);
+            v.extend_from_slice(&rand_bytes(seed, 0xd1, 8));
+            v.extend_from_slice(&rand_bytes(seed, 0xd2, 16));
+            v
+        }
+        0x02 => rand_bytes(seed, 0x02, 16),
+        0x0e => vec![4],
+        _ => rand_bytes(seed, id, 8),
+    }
+}
+
+/// applies one mutation to the item list; returns whether anything was (re)written
+fn apply(its: &mut Vec<(u64, Vec<u8>)>, m: &Mutation, seed: u64) -> bool {
+    let Some((id, op)) = &m.what else { return false };
+    let pos = its.iter().position(|(i, _)| i == id);
+    let replace = |its: &mut Vec<(u64, Vec<u8>)>, v: Vec<u8>| match pos {
+        Some(p) => its[p].1 = v,
+        None => its.push((*id, v)),
+    };
+    match op {
+        Op::Drop => match pos {
+            Some(p) => {
+                its.remove(p);
+                true
+            }
+            None => false,
+        },
+        Op::Same => match pos {
+            Some(p) => {
+                let it = its.remove(p);
+                its.insert(p, (it.0, it.1.clone()));
+                true
+            }
+            None => false,
+        },
+        Op::Flip(w) => match pos {
+            Some(p) if !its[p].1.is_empty() => {
+                let n = its[p].1.len();
+                let k = match w {
+                    0 => 0,
+                    1 => n / 2,
+                    _ => n - 1,
+                };
+                its[p].1[k] ^= 0x01;
+                true
+            }
+            _ => false,
+        },
+        Op::Trunc => match pos {
+            Some(p) if !its[p].1.is_empty() => {
+                its[p].1.pop();
+                true
+            }
+            _ => false,
+        },
+        Op::Ext => match pos {
+            Some(p) => {
+                its[p].1.push(0xee);
+                true
+            }
+            None => false,
+        },
+        Op::Empty => match pos {
+            Some(p) => {
+                its[p].1.clear();
+                true
+            }
+            None => false,
+        },
+        Op::Dup => match pos {
+            Some(p) => {
+                let it = its[p].clone();
+                its.push(it);
+                true
+            }
+            None => false,
+        },
+        Op::Set(v) => {
+            replace(its, v.clone());
+            true
+        }
+        Op::Rand(n) => {
+            replace(its, rand_bytes(seed, *id, *n));
+            true
+        }
+        Op::Copy(q) => match its.iter().find(|(i, _)| i == q).map(|(_, v)| v.clone()) {
+            Some(v) => {
+                replace(its, v);
+                true
+            }
+            None => false,
+        },
+        Op::Wf => {
+            replace(its, well_formed(*id, seed));
+            true
+        }
+    }
+}
+
+/// applies the mutations to an encoded block; a block that does not parse is left alone
+pub fn mutate(block: &[u8], muts: &[Mutation], seed: u64) -> (Vec<u8>, bool) {
+    let Some(mut its) = items(block) else { return (block.to_vec(), false) };
+    let mut applied = false;
+    for m in muts {
+        applied |= apply(&mut its, m, seed);
+    }
+    (unitems(&its), applied)
+}
+
+impl<E> TpEndpoint<E> {
+    fn passthrough(&self) -> bool {
+        self.limit == 0 && self.muts.is_empty()
+    }
+
+    fn rewritten(&mut self, block: Vec<u8>) -> Raw {
+        let limited = rewrite(&block, self.limit);
+        if self.muts.is_empty() {
+            return Raw(limited);
+        }
+        // a server endpoint creates one session per connection attempt: every one is rewritten (same mutation)
+        let (out, applied) = mutate(&limited, &self.muts, self.seed ^ self.sessions.wrapping_mul(0x51_7c_c1));
+        self.sessions += 1;
+        let spec = self.muts.iter().map(|m| m.spec.as_str()).collect::<Vec<_>>().join("+");
+        crate::trace::line(format!(
+            "app {} {} tpmut {} {} {} {}",
+            crate::trace::now(),
+            self.ep,
+            spec,
+            applied as u8,
+            crate::trace::hex(&limited),
+            crate::trace::hex(&out)
+        ));
+        Raw(out)
+    }
+}
+
 impl<E: Endpoint> Endpoint for TpEndpoint<E> {
     type Session = E::Session;
 
     fn new_server_session<Params: EncoderValue>(&mut self, transport_parameters: &Params, connection_info: ConnectionInfo) -> Self::Session {
-        if self.limit == 0 {
+        if self.passthrough() {
             return self.inner.new_server_session(transport_parameters, connection_info);
         }
-        let raw = Raw(rewrite(&transport_parameters.encode_to_vec(), self.limit));
+        let raw = self.rewritten(transport_parameters.encode_to_vec());
         self.inner.new_server_session(&raw, connection_info)
     }
 
     fn new_client_session<Params: EncoderValue>(&mut self, transport_parameters: &Params, server_name: ServerName) -> Self::Session {
-        if self.limit == 0 {
+        if self.passthrough() {
             return self.inner.new_client_session(transport_parameters, server_name);
         }
-        let raw = Raw(rewrite(&transport_parameters.encode_to_vec(), self.limit));
+        let raw = self.rewritten(transport_parameters.encode_to_vec());
         self.inner.new_client_session(&raw, server_name)
     }
 
@@ -108,10 +394,10 @@ impl<P: tls::Provider> tls::Provider for TpTls<P> {
     type Error = P::Error;
 
     fn start_server(self) -> Result<Self::Server, Self::Error> {
-        Ok(TpEndpoint { inner: self.inner.start_server()?, limit: self.limit })
+        Ok(TpEndpoint { inner: self.inner.start_server()?, limit: self.limit, ep: self.ep, muts: self.muts, seed: self.seed, sessions: 0 })
     }
 
     fn start_client(self) -> Result<Self::Client, Self::Error> {
-        Ok(TpEndpoint { inner: self.inner.start_client()?, limit: self.limit })
+        Ok(TpEndpoint { inner: self.inner.start_client()?, limit: self.limit, ep: self.ep, muts: self.muts, seed: self.seed, sessions: 0 })
     }
 }
